@@ -184,6 +184,45 @@ def run(repo: Repo, rep: Report, tier: str) -> None:
         rep.check(all(any(cfg_r.dominates(g_, r_, labels_excluded=("loop", "continue")) for g_ in gm_) for r_ in rl_), "one-per-call", "association.Association._run_reactor", "DIMSE queue checked before the release request in each pass", "the reactor looks for a release request before it looks at the DIMSE message queue: a request that arrived in the same TCP segment as the A-RELEASE-RQ following it is discarded unserved (the release is answered first), while the same two PDUs a moment apart are served in order - the outcome depends on how the byte stream was segmented", mod=am_, node=rl_[0].ast)
     else:
         rep.defer("association.Association._run_reactor: get_msg / is_release_requested not found")
+    # one event source per pass: the reactor either takes a primitive from the local user or reads a PDU - the PDU is
+    # looked for only when there was no primitive. Evaluating both in the same pass queues two events for one pass of
+    # a loop that handles one: the surplus event lags behind and reaches an action that no longer has its PDU / primitive
+    for f_ in [x for x in ast.walk(dul.tree) if isinstance(x, ast.FunctionDef)]:
+        tcalls = [c_ for c_ in walk_no_nested(f_) if isinstance(c_, ast.Call) and isinstance(c_.func, ast.Attribute) and c_.func.attr == "_is_transport_event"]
+        pcalls = [c_ for c_ in walk_no_nested(f_) if isinstance(c_, ast.Call) and isinstance(c_.func, ast.Attribute) and c_.func.attr == "_process_recv_primitive"]
+        if not tcalls or not pcalls:
+            continue
+        pnames = {norm(a_.targets[0]) for a_ in walk_no_nested(f_) if isinstance(a_, ast.Assign) and any(a_.value is p_ or any(y is p_ for y in ast.walk(a_.value)) for p_ in pcalls)}
+
+        def _mentions_prim(e_):
+            return any(y is p_ for p_ in pcalls for y in ast.walk(e_)) or any(isinstance(y, ast.Name) and y.id in pnames for y in ast.walk(e_))
+
+        for t_ in tcalls:
+            excl = False
+            child, g_ = t_, enclosing(t_, (ast.If,))
+            while g_ is not None and not excl:
+                in_test = any(y is t_ for y in ast.walk(g_.test))
+                in_body = any(y is child or any(z is child for z in ast.walk(y)) for y in g_.body)
+                in_else = any(y is child or any(z is child for z in ast.walk(y)) for y in g_.orelse)
+                if _mentions_prim(g_.test) and not in_test:
+                    tt = g_.test
+                    negated = isinstance(tt, ast.UnaryOp) and isinstance(tt.op, ast.Not)
+                    if (in_else and not negated) or (in_body and negated):
+                        excl = True
+                if in_test and isinstance(g_.test, ast.BoolOp):
+                    # `if not prim() and transport():` / `prim() or transport()`
+                    vals = g_.test.values
+                    k_ = next((i_ for i_, v_ in enumerate(vals) if any(y is t_ for y in ast.walk(v_))), None)
+                    if k_ is not None and k_ > 0 and any(_mentions_prim(v_) for v_ in vals[:k_]):
+                        excl = True
+                child, g_ = g_, enclosing(g_, (ast.If,))
+            # `prim() or transport()` as an expression statement
+            bo = enclosing(t_, (ast.BoolOp,))
+            if not excl and bo is not None:
+                k_ = next((i_ for i_, v_ in enumerate(bo.values) if any(y is t_ for y in ast.walk(v_))), None)
+                if k_ is not None and k_ > 0 and any(_mentions_prim(v_) for v_ in bo.values[:k_]):
+                    excl = True
+            rep.check(excl, "one-per-call", f"dul.{qualname(f_)}", enclosing(t_, (ast.stmt,)) or t_, "the transport is polled in the same pass in which a primitive from the local user was taken: two events are queued for one pass of a reactor that handles one per pass - the surplus event lags in the queue and reaches its action when the PDU / primitive it announced is gone (AR-7 pops a P-DATA as a release response, the provider thread dies and the peer's release request is never answered)", mod=dul, node=t_)
     # ... and at most once per pass of the reactor: the loop turns every pass into at most one new event and then
     # processes one; a second read in the same pass queues events faster than they are consumed, and the
     # primitive check (which only peeks at the head of its queue) announces the same primitive again on every
